@@ -249,14 +249,14 @@ class C16(Prop):
             "patches of 1-6 operations drawn against the EVOLVING reference document: add/remove/replace/test/copy/move at drawn valid "
             "locations (incl. root, '-', object overwrite, two-digit indices) and 18 failure classes (missing member/index, index beyond the "
             "end, '-' where not allowed, failed test, missing op/path/value/from, members of the wrong JSON type, move into own child, "
-            "wrong-case key/op, unknown op, path through a scalar, leading-zero index); syntactically valid pointers only. Oracle: status == 0 "
+            "wrong-case key/op, unknown op, path through a scalar, leading-zero index); syntactically valid pointers only; plus documents 998..1500 levels deep with operations at the bottom. Oracle: status == 0 "
             "iff the RFC 6902 reference evaluator succeeds, and then the document equals the reference result (arrays ordered, objects as sets); "
             "always: document structurally sound, document + patch delete to an empty ledger. (robustness) arbitrary JSON values as patch, "
             "near-patches with invalid pointers, and libFuzzer fz_patch (document text NUL patch text): no report, no leak, sound tree. "
             "non-trivial = >= 2 ops applied before the verdict, or a path needing ~0/~1, or a failure at op >= 2; distinct by case hash")
     ASSUMPTIONS = ["'remove' of the whole document is outside conformance (left open by the property)",
                    "keys distinct per object; pointers that are not syntactically valid are robustness-only"]
-    REQUIRED_CLASSES = ["conformance_success", "conformance_failure", "robustness", "escape_in_path", "fail_at_op>=2", "root_replaced"]
+    REQUIRED_CLASSES = ["conformance_success", "conformance_failure", "robustness", "escape_in_path", "fail_at_op>=2", "root_replaced", "deep_document"]
 
     def budget(self, tier):
         return {"workers": 14, "examples": 800 if tier == "quick" else 20000}
@@ -276,9 +276,44 @@ class C16(Prop):
                                      "cs": st.booleans()})
         near = conformance_case().flatmap(lambda c: st.tuples(st.integers(0, 10 ** 6), robustness_patches(), st.booleans()).map(
             lambda t: {"kind": "robustness", "doc": c["doc"], "patch": graft(c["patch"], t[0], t[1]), "cs": t[2]}))
-        return st.one_of(conformance_case(), conformance_case(), conformance_case(), rob, near)
+        # documents nested as deep as (and deeper than) the parser allows, operations at the bottom
+        deep = st.fixed_dictionaries({"kind": st.just("deep"), "depth": st.sampled_from([998, 999, 1000, 1001, 1002, 1500]),
+                                      "shape": st.sampled_from(["O", "A", "OA", "AO", "OOA"]),
+                                      "ops": st.lists(st.sampled_from(["add", "remove", "replace", "test", "test_fail", "copy_up", "move_up", "copy_down", "remove_missing"]),
+                                                      min_size=1, max_size=4)})
+        return gens.weighted((50, st.one_of(conformance_case(), conformance_case(), conformance_case(), rob, near)), (1, deep))
+
+    def deep_case(self, case):
+        d, shape = case["depth"], case["shape"]
+        toks = []
+        node = ["O", [[b"keep", ["N", 1.0]], [b"drop", ["t"]], [b"arr", ["A", [["N", 5.0], ["S", b"x"]]]]]]
+        for i in range(d, 0, -1):
+            if shape[i % len(shape)] == "A":
+                node = ["A", [node]]
+                toks.insert(0, b"0")
+            else:
+                node = ["O", [[b"n", node]]]
+                toks.insert(0, b"n")
+        if node[0] == "A":
+            node = ["O", [[b"top", node]]]
+            toks.insert(0, b"top")
+        base = rfc.ptr_build(toks)
+        mk = {"add": [[b"op", S(b"add")], [b"path", S(base + b"/new")], [b"value", ["A", [["N", 7.0]]]]],
+              "remove": [[b"op", S(b"remove")], [b"path", S(base + b"/drop")]],
+              "replace": [[b"op", S(b"replace")], [b"path", S(base + b"/keep")], [b"value", S(b"replaced")]],
+              "test": [[b"op", S(b"test")], [b"path", S(base + b"/arr")], [b"value", ["A", [["N", 5.0], ["S", b"x"]]]]],
+              "test_fail": [[b"op", S(b"test")], [b"path", S(base + b"/arr/0")], [b"value", ["N", 6.0]]],
+              "copy_up": [[b"op", S(b"copy")], [b"from", S(base + b"/arr")], [b"path", S(b"/copied")]],
+              "move_up": [[b"op", S(b"move")], [b"from", S(base + b"/arr/1")], [b"path", S(b"/moved")]],
+              "copy_down": [[b"op", S(b"copy")], [b"from", S(b"/" + toks[0])], [b"path", S(b"/copy of everything")]],
+              "remove_missing": [[b"op", S(b"remove")], [b"path", S(base + b"/no such member")]]}
+        ops = [["O", mk[o]] for o in case["ops"]]
+        return {"kind": "conformance", "doc": node, "patch": ["A", ops], "classes": list(case["ops"]), "deep": True}
 
     def run_case(self, lib, case, stats):
+        if case["kind"] == "deep":
+            stats.cls("deep_document")
+            case = self.deep_case(case)
         doc, patch = case["doc"], case["patch"]
         import random
         rnd = random.Random(model.count_nodes(doc) * 7919 + model.count_nodes(patch))
